@@ -2,6 +2,7 @@ package c05
 
 import (
 	"fmt"
+	"math/big"
 	"strings"
 	"testing"
 
@@ -72,7 +73,43 @@ func hexDigits(t *rapid.T, n int, label string) string {
 	return sb.String()
 }
 
+// genNativeMath builds a program that reaches the native circuits shipped with
+// package math (add64/sub64/mul64/div64.circ) with a run-time operand and a
+// constant, optionally feeding the result into a second native call.  In
+// streaming mode a native circuit is streamed as one instruction circuit whose
+// input and output wires are mapped onto the program's wire ids.
+func genNativeMath(t *rapid.T) Case {
+	fns := []string{"AddUint64", "SubUint64", "MulUint64", "DivUint64"}
+	fn := fns[rapid.IntRange(0, 3).Draw(t, "fn")]
+	k := rapid.SampledFrom([]string{"1", "2", "3", "5", "7", "255", "256", "65535", "65537", "0x7fffffff",
+		"0xffffffff", "0x100000000", "0xffffffffffffffff"}).Draw(t, "const")
+	dyn := rapid.SampledFrom([]string{"a ^ b", "a", "b", "a + b", "a & b"}).Draw(t, "dyn")
+	args := dyn + ", " + k
+	if fn != "DivUint64" && rapid.Bool().Draw(t, "constfirst") {
+		args = k + ", " + dyn
+	}
+	var sb strings.Builder
+	sb.WriteString("package main\n\nimport (\n\t\"math\"\n)\n\nfunc main(a, b uint64) (uint64, uint64) {\n")
+	sb.WriteString("\tx := math." + fn + "(" + args + ")\n")
+	switch rapid.IntRange(0, 2).Draw(t, "second") {
+	case 0:
+		sb.WriteString("\treturn x, b\n")
+	case 1:
+		sb.WriteString("\treturn x, math.AddUint64(x, b)\n")
+	default:
+		sb.WriteString("\ty := math.MulUint64(x, 3)\n\treturn math.SubUint64(y, a), x ^ y\n")
+	}
+	sb.WriteString("}\n")
+	cs := Case{Src: sb.String(), Tmpl: "native-math", Seed: rapid.Uint64().Draw(t, "seed")}
+	cs.X = []string{hexOf(new(big.Int).SetUint64(rapid.Uint64().Draw(t, "a")))}
+	cs.Y = []string{hexOf(new(big.Int).SetUint64(rapid.Uint64().Draw(t, "b")))}
+	return cs
+}
+
 func genTemplate(t *rapid.T) Case {
+	if rapid.IntRange(0, 3).Draw(t, "nativemath") == 0 {
+		return genNativeMath(t)
+	}
 	name := rapid.SampledFrom(templateNames).Draw(t, "template")
 	cs := Case{Src: templates[name], Tmpl: name, Seed: rapid.Uint64().Draw(t, "seed")}
 	switch name {
@@ -161,7 +198,7 @@ func genBoundary(t *rapid.T) Case {
 	arrT := mpcl.Array(n, mpcl.Uint(32))
 	o := mpcl.Opts{NumParams: 2, MaxStmts: 6, MaxDepth: 2, Arrays: false, Loops: true,
 		ScalarParams: true, MaxWidth: 64, NoDiv: true, Param0: &arrT,
-		PoolTypes: []mpcl.Type{mpcl.Uint(32), mpcl.Uint(64)},
+		PoolTypes:  []mpcl.Type{mpcl.Uint(32), mpcl.Uint(64)},
 		AliasHeavy: rapid.Bool().Draw(t, "alias")}
 	p := mpcl.Draw(t, o)
 	// The garbler's value: n*8 hex digits (element 0 first, as
